@@ -12,6 +12,7 @@ package c30
 
 import (
 	"fmt"
+	"math"
 	"os"
 	"strings"
 	"sync/atomic"
@@ -57,6 +58,21 @@ const (
 	longTimeout    = time.Hour              // "practically never": only used where the caller must return for another reason
 	refails        = 3
 )
+
+// the timeouts callers use for "no limit": one hour and the very large values (the largest
+// Duration, half of it, ~290 years); none of them can expire during a case
+var longTimeouts = []time.Duration{longTimeout, longTimeout, time.Duration(math.MaxInt64), time.Duration(math.MaxInt64 / 2), 290 * 365 * 24 * time.Hour}
+
+func isLong(d time.Duration) bool { return d >= longTimeout }
+
+// clampLong maps every "no limit" timeout to one hour for the oracle's time arithmetic (all
+// observed times are far below one hour, so every comparison keeps its meaning and nothing overflows).
+func clampLong(d time.Duration) time.Duration {
+	if d > longTimeout {
+		return longTimeout
+	}
+	return d
+}
 
 func deadlineBound(nominal time.Duration) time.Duration {
 	if nominal < 0 {
@@ -463,7 +479,8 @@ type scenario struct {
 	W       []waiter
 	Stagger time.Duration // pause between the starts of the waiters
 	Action  int
-	Rel     metric        // released amount (<= Held)
+	Rel     metric        // released amount (<= Held unless Over)
+	Over    bool          // Rel exceeds whatever can be held when it is released: the held amount is reset to zero, one warning
 	Delay   time.Duration // pause before the action
 }
 
@@ -478,10 +495,24 @@ func (s scenario) String() string {
 		sb.WriteString(" action=none")
 	case actRelease:
 		fmt.Fprintf(&sb, " action=Release(%v) after %v", s.Rel, s.Delay)
+		if s.Over {
+			sb.WriteString(" (over-release)")
+		}
 	case actTerminate:
 		fmt.Fprintf(&sb, " action=Terminate() after %v", s.Delay)
 	}
 	return sb.String()
+}
+
+// afterAction is the held amount right after the action when no waiter has been granted.
+func (s scenario) afterAction() metric {
+	switch {
+	case s.Action == actRelease && s.Over:
+		return metric{}
+	case s.Action == actRelease:
+		return minus(s.Held, s.Rel)
+	}
+	return s.Held
 }
 
 func exceeds(req, cap metric) bool { return req.Num > cap.Num || req.Size > cap.Size }
@@ -490,7 +521,7 @@ func drawUpTo(t *rapid.T, label string, hi metric) metric {
 	return mk(rapid.IntRange(0, int(hi.Num)).Draw(t, label+".num"), rapid.IntRange(0, int(hi.Size)).Draw(t, label+".size"))
 }
 
-var scenarioKinds = []string{"never_release", "release_enough", "release_too_little", "terminate", "above_capacity", "fits_at_once"}
+var scenarioKinds = []string{"never_release", "release_enough", "release_too_little", "terminate", "above_capacity", "fits_at_once", "over_release"}
 
 func genScenario(t *rapid.T) scenario {
 	var s scenario
@@ -534,6 +565,12 @@ func genScenario(t *rapid.T) scenario {
 		d := deficit(req, s.Held)
 		s.Action = actRelease
 		s.Rel = mk(rapid.IntRange(int(d.Num), int(s.Held.Num)).Draw(t, "relNum"), rapid.IntRange(int(d.Size), int(s.Held.Size)).Draw(t, "relSize"))
+	case "over_release":
+		// a waiter is blocked and the release is larger than what is held (drawn below, once the
+		// second waiter is known): everything is dropped, so the waiter fits afterwards
+		req, s.Held, _ = blocked()
+		s.Action = actRelease
+		s.Over = true
 	case "release_too_little":
 		var blockNum bool
 		req, s.Held, blockNum = blocked()
@@ -578,21 +615,29 @@ func genScenario(t *rapid.T) scenario {
 		s.W = append(s.W, waiter{Req: drawUpTo(t, "req2", plus(s.Cap, mk(1, 1)))})
 		if rapid.IntRange(0, 2).Draw(t, "competitor") == 0 && s.Action != actTerminate {
 			// the second waiter wants everything that is (or becomes) available: at most one of the two can win
-			left := s.Held
-			if s.Action == actRelease {
-				left = minus(s.Held, s.Rel)
-			}
-			if left = minus(s.Cap, left); !isEmpty(left) {
+			if left := minus(s.Cap, s.afterAction()); !isEmpty(left) {
 				s.W[1].Req = left
 			}
 		}
 	}
-	// timeouts: 5-40 ms (sometimes zero or negative); one hour only where the caller has to
-	// return for another reason whatever the other waiter does
-	after := s.Held
-	if s.Action == actRelease {
-		after = minus(s.Held, s.Rel)
+	if s.Over {
+		// larger, in one dimension, than anything that can be held when Release is called (the
+		// second waiter may have been granted before): an over-release in every interleaving
+		most := s.Held
+		if len(s.W) == 2 && le(plus(s.Held, s.W[1].Req), s.Cap) {
+			most = plus(most, s.W[1].Req)
+		}
+		s.Rel = drawUpTo(t, "rel", plus(s.Cap, mk(1, 1)))
+		if rapid.Bool().Draw(t, "overNum") {
+			s.Rel.Num = most.Num + idx.Event(rapid.IntRange(1, 3).Draw(t, "overBy"))
+		} else {
+			s.Rel.Size = most.Size + uint64(rapid.IntRange(1, 3).Draw(t, "overBy"))
+		}
 	}
+	// timeouts: 5-40 ms (sometimes zero or negative); "no limit" (one hour, or the very large values
+	// callers use for it) only where the caller has to return for another reason whatever the other
+	// waiter does
+	after := s.afterAction()
 	for i := range s.W {
 		r := s.W[i].Req
 		worst := after
@@ -605,7 +650,7 @@ func genScenario(t *rapid.T) scenario {
 		sel := rapid.IntRange(0, 9).Draw(t, fmt.Sprintf("timeoutSel%d", i))
 		switch {
 		case mustReturn && sel < 5:
-			s.W[i].Timeout = longTimeout
+			s.W[i].Timeout = rapid.SampledFrom(longTimeouts).Draw(t, fmt.Sprintf("noLimit%d", i))
 		case sel == 9:
 			s.W[i].Timeout = time.Duration(rapid.IntRange(-3, 0).Draw(t, "nonPositiveMs")) * time.Millisecond
 		default:
@@ -678,7 +723,7 @@ func runScenario(s scenario) (v verdict, info timedInfo, overloaded bool) {
 	// watchdog: every waiter has to be back hangAfter after the latest moment the property allows
 	var maxShort time.Duration
 	for _, w := range s.W {
-		if w.Timeout != longTimeout && w.Timeout > maxShort {
+		if !isLong(w.Timeout) && w.Timeout > maxShort {
 			maxShort = w.Timeout
 		}
 	}
@@ -716,32 +761,46 @@ func runScenario(s scenario) (v verdict, info timedInfo, overloaded bool) {
 	}
 
 	// ---- oracle ----
-	after := s.Held
-	if s.Action == actRelease {
-		after = minus(s.Held, s.Rel)
-	}
+	after := s.afterAction()
 	final := after
+	alt := after // over-release: a grant that may have happened before the release was dropped with the rest
+	ambiguous := false
 	for i, w := range s.W {
-		if info.out[i].res {
-			final = plus(final, w.Req)
+		o := info.out[i]
+		if !o.res {
+			continue
+		}
+		final = plus(final, w.Req)
+		switch {
+		case !s.Over || !le(plus(s.Held, w.Req), s.Cap) || o.start > info.aEnd:
+			alt = plus(alt, w.Req) // cannot have been granted before the release
+		case o.ret < info.aStart:
+			final = minus(final, w.Req) // granted before the release for sure
+		default:
+			ambiguous = true
 		}
 	}
-	info.finalOK = final
 	info.final = sem.Processing()
-	if info.final != final {
-		v.hardf("Processing() = %v at the end; held %v, released %v and the granted requests give %v", info.final, s.Held, s.Rel, final)
+	if info.final != final && !(ambiguous && info.final == alt) {
+		v.hardf("Processing() = %v at the end; held %v, released %v (over-release: %v) and the granted requests give %v", info.final, s.Held, s.Rel, s.Over, final)
+	} else {
+		final = info.final
 	}
+	info.finalOK = final
 	if !terminated && !le(final, s.Cap) {
 		v.hardf("granted requests bring the held amount to %v, above the capacity %v", final, s.Cap)
 	}
-	if n := warnings.Load(); n != 0 {
+	if n := warnings.Load(); !s.Over && n != 0 {
 		v.hardf("%d over-release warnings although never more than the held amount was released", n)
+	} else if s.Over && n != 1 {
+		v.hardf("%d warnings for one over-release Release(%v) with held %v", n, s.Rel, s.Held)
 	}
 	for i, w := range s.W {
 		o := info.out[i]
 		name := fmt.Sprintf("waiter%d Acquire(%v,%v) [start %s, return %s, result %v; action %s..%s]", i, w.Req, w.Timeout, ms(o.start), ms(o.ret), o.res, ms(info.aStart), ms(info.aEnd))
 		took := o.ret - o.start
-		tpos := w.Timeout
+		wt := clampLong(w.Timeout)
+		tpos := wt
 		if tpos < 0 {
 			tpos = 0
 		}
@@ -777,6 +836,12 @@ func runScenario(s scenario) (v verdict, info timedInfo, overloaded bool) {
 			}
 			if s.Action == actRelease && !fitsAtStart {
 				info.classes["granted_after_release"] = true
+				if s.Over {
+					info.classes["granted_after_over_release"] = true
+				}
+				if w.Timeout > longTimeout {
+					info.classes["granted_after_release_huge_timeout"] = true
+				}
 			} else {
 				info.classes["granted_at_once"] = true
 			}
@@ -787,7 +852,7 @@ func runScenario(s scenario) (v verdict, info timedInfo, overloaded bool) {
 			// the property does not speak about empty requests after termination
 		case terminated:
 			info.classes["refused_by_terminate_or_timeout"] = true
-			if o.ret < info.aStart && took < w.Timeout {
+			if o.ret < info.aStart && took < wt {
 				v.hardf("%s: refused before its timeout and before Terminate was called", name)
 			}
 			lim := o.start + tpos + deadlineBound(tpos)
@@ -803,25 +868,25 @@ func runScenario(s scenario) (v verdict, info timedInfo, overloaded bool) {
 			}
 			if o.start < info.aStart {
 				info.blockedNoHelp = true
-				if w.Timeout == longTimeout || o.start+w.Timeout > info.aEnd {
+				if isLong(w.Timeout) || o.start+wt > info.aEnd {
 					info.classes["unblocked_by_terminate"] = true
 				}
 			}
 		default: // refused, within capacity, not terminated
 			info.classes["timed_out"] = true
-			if took < w.Timeout {
+			if took < wt {
 				v.hardf("%s: returned false after %s, earlier than its timeout", name, ms(took))
 			}
-			if le(plus(final, w.Req), s.Cap) && (s.Action == actNone || info.aEnd < o.start+w.Timeout) {
+			if le(plus(final, w.Req), s.Cap) && (s.Action == actNone || info.aEnd < o.start+wt) {
 				v.hardf("%s: refused although the request fitted (held at the end %v, capacity %v) and the release had finished before its deadline", name, final, s.Cap)
 			}
-			if s.Action == actRelease && info.aEnd >= o.start+w.Timeout {
+			if s.Action == actRelease && info.aEnd >= o.start+wt {
 				info.classes["action_after_deadline"] = true
 			}
 			if took > tpos+deadlineBound(tpos) {
 				v.timingf("%s: returned %s after its timeout", name, ms(took-tpos))
 			}
-			if w.Timeout > 0 {
+			if wt > 0 {
 				info.blockedNoHelp = true
 			}
 		}
@@ -847,17 +912,20 @@ func timedProp(t *rapid.T) {
 	if len(s.W) == 2 {
 		classes = append(classes, "two_waiters")
 		a, b := s.W[0].Req, s.W[1].Req
-		after := s.Held
-		if s.Action == actRelease {
-			after = minus(s.Held, s.Rel)
-		}
+		after := s.afterAction()
 		if s.Action != actTerminate && le(plus(after, a), s.Cap) && le(plus(after, b), s.Cap) && !le(plus(plus(after, a), b), s.Cap) {
 			classes = append(classes, "two_waiters_compete")
 		}
 	}
 	for _, w := range s.W {
-		if w.Timeout == longTimeout {
+		if isLong(w.Timeout) {
 			classes = append(classes, "one_hour_timeout")
+			break
+		}
+	}
+	for _, w := range s.W {
+		if w.Timeout > longTimeout {
+			classes = append(classes, "huge_timeout")
 			break
 		}
 	}
@@ -889,6 +957,10 @@ func TestC30Regression(t *testing.T) {
 		{Kind: "release_too_little", Cap: mk(3, 10), Held: mk(3, 4), W: []waiter{{Req: mk(2, 1), Timeout: 15 * time.Millisecond}}, Action: actRelease, Rel: mk(1, 4), Delay: 2 * time.Millisecond},
 		{Kind: "terminate", Cap: mk(1, 5), Held: mk(1, 5), W: []waiter{{Req: mk(1, 1), Timeout: longTimeout}}, Action: actTerminate, Delay: 3 * time.Millisecond},
 		{Kind: "release_enough", Cap: mk(2, 8), Held: mk(2, 8), W: []waiter{{Req: mk(2, 8), Timeout: longTimeout}}, Action: actRelease, Rel: mk(2, 8), Delay: 3 * time.Millisecond},
+		// "no limit" written as the largest Duration: granted after the release, not refused
+		{Kind: "release_enough", Cap: mk(2, 8), Held: mk(2, 3), W: []waiter{{Req: mk(1, 1), Timeout: time.Duration(math.MaxInt64)}}, Action: actRelease, Rel: mk(1, 0), Delay: 3 * time.Millisecond},
+		// an over-release drops everything: the blocked caller is granted right after it
+		{Kind: "over_release", Cap: mk(2, 8), Held: mk(2, 3), W: []waiter{{Req: mk(1, 1), Timeout: longTimeout}}, Action: actRelease, Rel: mk(3, 0), Over: true, Delay: 3 * time.Millisecond},
 	}
 	for _, s := range cases {
 		failures := 0
